@@ -12,6 +12,7 @@ import (
 	"github.com/cedar-policy/cedar-go/verif/c04"
 	"github.com/cedar-policy/cedar-go/verif/c05"
 	"github.com/cedar-policy/cedar-go/verif/c06"
+	"github.com/cedar-policy/cedar-go/verif/c07"
 	"github.com/cedar-policy/cedar-go/verif/c20"
 	"github.com/cedar-policy/cedar-go/verif/core"
 )
@@ -23,6 +24,7 @@ var registry = map[string]func() *core.Check{
 	"C04": c04.Check,
 	"C05": c05.Check,
 	"C06": c06.Check,
+	"C07": c07.Check,
 	"C20": c20.Check,
 }
 
